@@ -115,9 +115,10 @@ def perturbations(values: Dict[str, Any], params: List[Dict[str, Any]]) -> Itera
 def assignments(prog: Dict[str, Any]) -> Iterator[Tuple[str, Dict[str, Any]]]:
     if prog["tags"][0] == "prog":
         seen = set()
+        single = len(prog["tags"][1].split("+")) == 1
         for ai, a in enumerate(prog["assign"]):  # every valid assignment; single-fault neighbours of the first two
-            yield "valid", a
-            if ai >= 2:
+            yield "valid", a                     # (of all of them for single-template programs)
+            if ai >= 2 and not single:
                 continue
             for kind, d in perturbations(a, prog["params"]):
                 key = repr(sorted(d.items(), key=lambda kv: kv[0]))
